@@ -284,6 +284,7 @@ def run_t1(prop, cfg, tier, seed):
 C15_CONFIGS = [
     ('CXX98', ['-DGLM_FORCE_CXX98']), ('CXX11', ['-DGLM_FORCE_CXX11']), ('CXX14', ['-DGLM_FORCE_CXX14']), ('CXX17', ['-DGLM_FORCE_CXX17']),
     ('INLINE', ['-DGLM_FORCE_INLINE']), ('EXPLICIT_CTOR', ['-DGLM_FORCE_EXPLICIT_CTOR']), ('CTOR_INIT', ['-DGLM_FORCE_CTOR_INIT']),
+    ('QUAT_CTOR_XYZW', ['-DGLM_FORCE_QUAT_DATA_XYZW']),   # only the argument order of qua(a,b,c,d) changes; glm's own code and the units build quaternions with qua::wxyz
     ('SIZE_T_LENGTH', ['-DGLM_FORCE_SIZE_T_LENGTH']), ('XYZW_ONLY', ['-DGLM_FORCE_XYZW_ONLY']), ('SWIZZLE', ['-DGLM_FORCE_SWIZZLE']),
     ('QUAT_DATA_WXYZ', ['-DGLM_FORCE_QUAT_DATA_WXYZ']), ('PURE', ['-DGLM_FORCE_PURE']), ('CXX03', ['-DGLM_FORCE_CXX03']), ('CXX20', ['-DGLM_FORCE_CXX20']),
     ('COMPILER_UNKNOWN', ['-DGLM_FORCE_COMPILER_UNKNOWN']), ('PLATFORM_UNKNOWN', ['-DGLM_FORCE_PLATFORM_UNKNOWN']),
@@ -313,7 +314,7 @@ def canon_run_line(l):
 
 # the hand-model harnesses (real glm on seeded/exhaustive inputs) under every configuration: same output stream as the default build
 C15_HARNESSES = {   # name: (extra flags, argv after the binary, configurations under which the HARNESS itself does not compile)
-    'C15': (['-O1'], lambda s: ['run', s, '400'], []),        # diff/C15.cpp: cross-type conversions the tracer cannot see
+    'C15': (['-O1'], lambda s: ['run', s, '400'], ['QUAT_CTOR_XYZW']),   # (the probe itself calls quat(w, x, y, z))        # diff/C15.cpp: cross-type conversions the tracer cannot see
     'C05': (['-O1'], lambda s: ['lines', 'quick', s], []),
     'C06': (['-O1'], lambda s: ['lines', 'quick', s], ['CXX98', 'CXX03', 'CXX98_XYZW_CTORINIT', 'INLINE', 'SIZE_T_INLINE_EXPLICIT']),
     'C07': (['-O2'], lambda s: ['quick', s, '20000'], []),
@@ -530,8 +531,8 @@ def run_cfg(prop, tier, seed):
 # (b) sanitizer replay: the unit tables of the T1 properties are rebuilt with ASan/UBSan(+float-cast-overflow) and
 #     driven through their correspondence inputs and numeric explorations; the hand-model checks run their own
 #     sanitizer builds (C11, C14). An abort is a violation whose replay is the last echoed input.
-C20_UNITS_QUICK = ['C12', 'C13', 'C10', 'C19', 'C09']
-C20_UNITS_THOROUGH = ['C12', 'C13', 'C10', 'C19', 'C09', 'C04', 'C08', 'C01', 'C02', 'C16']
+C20_UNITS_QUICK = ['C12', 'C13', 'C10', 'C19', 'C09', 'C17']   # C17: every swizzle (also the operator form, whose proxies index the vector's storage)
+C20_UNITS_THOROUGH = ['C12', 'C13', 'C10', 'C19', 'C09', 'C17', 'C04', 'C08', 'C01', 'C02', 'C16']
 SAN_FLAGS = ['-O1', '-g', '-fsanitize=address,undefined,float-cast-overflow', '-fno-sanitize-recover=all']
 C20_HARNESS_FLAGS = ['-std=c++17', '-O1', '-g', '-ffp-contract=off', '-w', '-fsanitize=address,undefined,float-cast-overflow',
                      '-fno-sanitize-recover=all', '-fno-sanitize=shift-base']
